@@ -1367,3 +1367,108 @@ func (e *oblEngine) narrowObls(f *ssa.Function) {
 		e.record("NARROW", f, cv, c, good, false, ifelse(good, how, fmt.Sprintf("a %s is converted to %s without a bound that fits: a number in the text that is out of range wraps around instead of being refused (the filter differs from the one written)", cv.X.Type(), cv.Type())))
 	})
 }
+
+// ---------- WRAP: loop counters of a narrow integer type that can wrap past the loop bound
+//
+// `for i := lo; i <= hi; i++` with i of a fixed-width type narrower than 64 bits never ends when hi can
+// be the largest value of the type (the increment wraps and the test stays true); the mirror image is
+// `for i := hi; i >= lo; i--` on an unsigned type with lo == 0. The obligation is on the loop test; it
+// is discharged when the bound is provably away from the limit of the type (a constant, a value that
+// was widened from a narrower type, a dominating guard).
+func (e *oblEngine) wrapObls(f *ssa.Function) {
+	for _, b := range f.Blocks {
+		ifi := blockIf(b)
+		if ifi == nil {
+			continue
+		}
+		cmp, ok := ifi.Cond.(*ssa.BinOp)
+		if !ok {
+			continue
+		}
+		for _, side := range []int{0, 1} {
+			iv, bound := cmp.X, cmp.Y
+			op := cmp.Op
+			if side == 1 {
+				iv, bound = cmp.Y, cmp.X
+				op = flipOp(op)
+			}
+			phi, ok := iv.(*ssa.Phi)
+			if !ok || phi.Block() != b {
+				continue
+			}
+			bits, signed, okW := widthOf(phi.Type())
+			if !okW || bits >= 64 || bits < 8 {
+				continue
+			}
+			// the φ is advanced by a constant step around the loop
+			step := int64(0)
+			for _, ed := range phi.Edges {
+				if bo, isB := ed.(*ssa.BinOp); isB && (bo.Op == token.ADD || bo.Op == token.SUB) && bo.X == ssa.Value(phi) {
+					if k, isK := constInt(bo.Y); isK {
+						if bo.Op == token.SUB {
+							k = -k
+						}
+						step = k
+					}
+				}
+			}
+			if step == 0 {
+				continue
+			}
+			var limit int64
+			var need string
+			switch {
+			case op == token.LEQ && step > 0:
+				if signed {
+					limit = int64(1)<<uint(bits-1) - 1
+				} else {
+					limit = int64(1)<<uint(bits) - 1
+				}
+				need = fmt.Sprintf("bound ≤ %d", limit-step)
+			case op == token.GEQ && step < 0:
+				if signed {
+					limit = -(int64(1) << uint(bits-1))
+				} else {
+					limit = 0
+				}
+				need = fmt.Sprintf("bound ≥ %d", limit-step)
+			default:
+				continue
+			}
+			c := e.constructOf(f, cmp.Pos(), func(n ast.Node) bool { _, ok := n.(*ast.BinaryExpr); return ok }, valueText(iv)+" "+op.String()+" "+valueText(bound))
+			okB, how := false, ""
+			// structural: the bound was widened from a narrower type, or is a constant
+			hull := e.w.valueSetAt(f, ifi, bound)
+			if cv, isC := bound.(*ssa.Convert); isC {
+				if nb, ns, okN := widthOf(cv.X.Type()); okN && nb < bits {
+					if ns {
+						hull.hi = min64(hull.hi, int64(1)<<uint(nb-1)-1)
+					} else {
+						hull.hi = min64(hull.hi, int64(1)<<uint(nb)-1)
+						hull.lo = max64(hull.lo, 0)
+					}
+				}
+			}
+			if step > 0 && hull.hi <= limit-step {
+				okB, how = true, fmt.Sprintf("bound ∈ [%s,%s], the counter cannot pass %d", boundStr(hull.lo), boundStr(hull.hi), limit)
+			}
+			if step < 0 && hull.lo >= limit-step {
+				okB, how = true, fmt.Sprintf("bound ∈ [%s,%s], the counter cannot pass %d", boundStr(hull.lo), boundStr(hull.hi), limit)
+			}
+			if !okB {
+				how = fmt.Sprintf("loop counter of type %s is compared with %s against a bound that can be %d: the step wraps around and the test stays true — the loop never ends (%s needed, known [%s,%s])", phi.Type(), op, limit, need, boundStr(hull.lo), boundStr(hull.hi))
+			}
+			e.record("WRAP", f, cmp, c, okB, false, how)
+		}
+	}
+}
+
+func boundStr(v int64) string {
+	if v >= inf {
+		return "∞"
+	}
+	if v <= -inf {
+		return "-∞"
+	}
+	return fmt.Sprint(v)
+}
